@@ -2,5 +2,5 @@ CONSTANTS
   MaxLen = 9
 INIT Init
 NEXT Next
-INVARIANTS C12_ErrorChangesNothing C12_CountMatchesHistory EmitHistory
+INVARIANTS C12_ErrorChangesNothing C12_CountMatchesHistory C12_HeightIsSumOfMoves EmitHistory
 CHECK_DEADLOCK FALSE
